@@ -30,3 +30,12 @@ class K(object):
 
 s = [g() for g in [lambda: 1, lambda: 2]]
 r = dict((i, (lambda j: j)(i)) for i in range(2))
+
+# every binary and in-place operator (the extended formats rebuild the expression text; "%" and "%=" go through a format string)
+p = 7
+q = 3
+p += q; p -= q; p *= q; p //= q; p %= q; p **= q; p <<= 1; p >>= 1; p &= 7; p |= 1; p ^= 2
+o = (p + q, p - q, p * q, p // q, p % q, p ** q, p << 1, p >> 1, p & q, p | q, p ^ q, -p, +p, ~p, not p)
+fmt = "%s and %d%%" % (p, q)
+a[0] += 1
+a[0] %= 2
